@@ -674,7 +674,10 @@ func (c *Client) handleAgentCallback(event Event) { //nolint:cyclop
 	}
 	// Starting agent transaction.
 	if startErr := c.a.Start(id, timeOut); startErr != nil {
-		c.delete(id)
+		if !c.delete(id) {
+			// Transaction is completed already by someone else.
+			return
+		}
 		event.Error = startErr
 		transaction.handle(event)
 		putClientTransaction(transaction)
@@ -684,7 +687,10 @@ func (c *Client) handleAgentCallback(event Event) { //nolint:cyclop
 	// Writing message to connection again.
 	_, writeErr := c.c.Write(buff.buf)
 	if writeErr != nil {
-		c.delete(id)
+		if !c.delete(id) {
+			// Transaction is completed already by someone else.
+			return
+		}
 		event.Error = writeErr
 		// Stopping agent transaction instead of waiting until it's deadline.
 		// This will call handleAgentCallback with "ErrTransactionStopped" error
